@@ -262,3 +262,26 @@ fn calendar_conversion_from_cr_ms_bounded() {
     let dt: DateTime<unit::Millisecond> = cr.into();
     assert!(dt.into_i64() == Y2300_S * 1000 + d);
 }
+
+// ---- C17, BOUNDED in the time of day: a fixed list of times (midnight, one nanosecond, a leap-free general value, the last
+// nanosecond of the day) reports the components it was built from and survives the calendar time type.  (The symbolic version
+// `time_components_roundtrip` needs 38 min of CBMC and runs in the thorough tier only.)
+macro_rules! time_listed {
+    ($name:ident, $h:literal, $m:literal, $s:literal, $ns:literal) => {
+        #[kani::proof]
+        fn $name() {
+            let t = Time::from_hms_nano($h, $m, $s, $ns);
+            assert!(t.0 == (($h * 3600 + $m * 60 + $s) as i64) * 1_000_000_000 + $ns);
+            let c = t.as_cr();
+            assert!(c.is_some());
+            let c = c.unwrap();
+            assert!(c.hour() == $h && c.minute() == $m && c.second() == $s && c.nanosecond() == $ns);
+            assert!(t.hour() == $h && t.minute() == $m && t.second() == $s && t.nanosecond() == $ns);
+            assert!(Time::from_cr(&c) == t);
+        }
+    };
+}
+time_listed!(time_listed_midnight, 0, 0, 0, 0);
+time_listed!(time_listed_one_nano, 0, 0, 0, 1);
+time_listed!(time_listed_general, 12, 34, 56, 789_000_001);
+time_listed!(time_listed_last_nano, 23, 59, 59, 999_999_999);
